@@ -58,6 +58,9 @@ type traceSpec struct {
 
 var traceSpecC01 = traceSpec{Ops: []string{"text"}, Params: genParams{MaxNodes: 60, MaxDepth: 8, MaxRoots: 5, NChunks: 16, Hostile: true}, NQuick: 120, NThorough: 1500}
 
+// documents of several KiB (more than one 4096-byte buffer of the line scanner, hundreds of lines): a handful per run
+var traceSpecBig = traceSpec{Ops: []string{"text", "walk"}, Params: genParams{MinNodes: 350, MaxNodes: 700, MaxDepth: 6, MaxRoots: 40, NChunks: 16, Hostile: true}, NQuick: 4, NThorough: 40}
+
 func classifyErr(err error, c *tok.Conc) (string, []string) {
 	if err == nil {
 		return "", []string{}
